@@ -60,11 +60,11 @@ def build_cases(tier="quick"):
         "delete_if_invalid_object": {"object_metadata": ["@none", {"cid": "x"}, ("a", "b")], "checksum": BAD_ID[:5],
                                      "checksum_algorithm": BAD_ALGO + [None], "expected_file_size": BAD_SIZE},
         "store_metadata": {"pid": BAD_ID, "metadata": ["@none", 5, b"bytes", "", "  ", "@missing"], "format_id": BAD_FMT},
-        "retrieve_object": {"pid": BAD_ID + ["@unknown", "@metaonly"]},
-        "retrieve_metadata": {"pid": BAD_ID + ["@unknown"], "format_id": BAD_FMT + ["@unknownfmt"]},
-        "delete_object": {"pid": BAD_ID + ["@unknown", "@metaonly"]},
+        "retrieve_object": {"pid": BAD_ID + ["@unknown", "@metaonly", "@deleted"]},
+        "retrieve_metadata": {"pid": BAD_ID + ["@unknown", "@deleted"], "format_id": BAD_FMT + ["@unknownfmt"]},
+        "delete_object": {"pid": BAD_ID + ["@unknown", "@metaonly", "@deleted"]},
         "delete_metadata": {"pid": BAD_ID, "format_id": BAD_FMT},
-        "get_hex_digest": {"pid": BAD_ID + ["@unknown", "@metaonly"], "algorithm": BAD_ALGO + [None]},
+        "get_hex_digest": {"pid": BAD_ID + ["@unknown", "@metaonly", "@deleted"], "algorithm": BAD_ALGO + [None]},
     }
     cases = []
     for m, params in P.items():
@@ -122,6 +122,17 @@ def run_shard(cases, sub_seed, tier="quick"):
                 st.store_metadata("k1", pdoc)
                 st.store_metadata("k1", pdoc, "fmt2")
                 st.store_metadata("nobj", pdoc)
+            if state != "empty":
+                # a pid that lived, was read through every read-only call, and was deleted: it is unknown again
+                st.store_object("gone", pb)
+                st.store_metadata("gone", pdoc)
+                st.store_metadata("gone", pdoc, "fmt2")
+                for alg in ("sha256", "md5", "sha3_256"):
+                    st.get_hex_digest("gone", alg)
+                read_all_and_close(st.retrieve_object("gone"))
+                read_all_and_close(st.retrieve_metadata("gone"))
+                read_all_and_close(st.retrieve_metadata("gone", "fmt2"))
+                st.delete_object("gone")
             states[state] = (root, st)
         meta_ok = OM("HashStoreNoPid", hashlib.sha256(dataA).hexdigest(), len(dataA),
                      {a: hashlib.new(a, dataA).hexdigest() for a in ("md5", "sha1", "sha256", "sha384", "sha512")})
@@ -171,6 +182,9 @@ def run_shard(cases, sub_seed, tier="quick"):
                     closers.append(v)
                 elif v == "@unknown":
                     v = "never.stored.pid"
+                    expected = expected | UNKNOWN | ({"ValueError"})
+                elif v == "@deleted":
+                    v = "gone"
                     expected = expected | UNKNOWN | ({"ValueError"})
                 elif v == "@metaonly":
                     v = "nobj"          # a pid that has metadata documents but no object
